@@ -388,7 +388,7 @@ def node_notifications(ctx):
         ctx.prove(kind == 'ok', 'C18:O18.3.no-exception', info=getattr(v, 'typ', None))
         for n, b in field_unchanged(old, so, ['otherNodes', 'raftCurrentTerm', 'raftState', 'raftCommitIndex', 'votedForNodeId', 'raftLog',
                                               'lastResponseTime', 'raftLastApplied']):
-            ctx.prove(b, 'C18+C04+C20:O18.3.frame.%s' % n)
+            ctx.prove(b, 'C18+C04+C20+C03+C07:O18.3.frame.%s' % n)
         m0, m1 = old.get('raftMatchIndex'), so.cell('raftMatchIndex')
         v0 = old.get('otherNodes').bits
         for i in range(so.U):
